@@ -22,11 +22,11 @@ func init() {
 }
 
 type randSlot struct {
-	name             string
-	pkg, recv, fn    string
-	sinks            []string // extraction specs whose value must be the same Rand buffer
-	size             string
-	inside           bool // the Rand is a sub-term of the sink argument (salt inside Concat)
+	name          string
+	pkg, recv, fn string
+	sinks         []string // extraction specs whose value must be the same Rand buffer
+	size          string
+	inside        bool // the Rand is a sub-term of the sink argument (salt inside Concat)
 }
 
 var randSlots = []randSlot{
